@@ -672,3 +672,75 @@ def r_clustered(ctx):
     if not obs:
         return no_anchor("R-CLUSTERED", "archive writer")
     return obs
+
+
+def r_listing(ctx):
+    """R-LISTING (C04): the id listing and the tile count are taken from the same id map the lookups use"""
+    obs = []
+    adt, roles = store_adt(ctx)
+    if adt is None:
+        return no_anchor("R-LISTING", "tile store")
+    idmap = self_field(roles["tiles"])
+    found = {"list": 0, "count": 0}
+    for f in ctx.user_fns():
+        if "TileManager" not in (f.get("self_ty") or ""):
+            continue
+        fa = ctx.fa(f)
+        if len(fa.paths) != 1:
+            continue
+        v = unmut(fa.paths[0].value)
+        if "Vec<&u64>" in f["ret"]:
+            found["list"] += 1
+            ok = is_call_to(v, lambda s: s.endswith("::collect")) and is_call_to(v[2][0], lambda s: s == HM + "keys") and v[2][0][2][0] == idmap
+            obs.append(Ob("R-LISTING", f["path"], "listing = keys of the id map", ok, "returns %s" % tstr(v)[:100], rel(f["loc"])))
+        elif f["ret"] == "usize" and fa.param_names == ["self"]:
+            found["count"] += 1
+            ok = v == ("call", "len", (idmap,), None)
+            obs.append(Ob("R-LISTING", f["path"], "count = size of the id map", ok, "returns %s" % tstr(v)[:100], rel(f["loc"])))
+    for k, n in found.items():
+        if n == 0:
+            obs.append(Ob("R-LISTING", "<anchor>", "store %s function" % k, False, "anchor not found: TileManager method returning %s" % ("Vec<&u64>" if k == "list" else "usize")))
+    # public wrappers forward unchanged
+    tm = ("f", V("param:self"), "tile_manager")
+    for f in ctx.user_fns():
+        if not f["path"].startswith("pmtiles::PMTiles") or f["vis"] != "pub":
+            continue
+        name = f["path"].rpartition("::")[2]
+        if name in ("tile_ids", "num_tiles", "remove_tile", "add_tile", "get_tile_by_id", "get_tile_by_id_async"):
+            fa = ctx.fa(f)
+            ok = True
+            for p in fa.paths:
+                cs = [e for e in p.events if e.kind == "call" and e.d["fn"].startswith("tile_manager::TileManager")]
+                ok = ok and len(cs) == 1 and unmut(cs[0].d["args"][0]) == tm and all(a == V("param:" + n) for a, n in zip([unmut(x) for x in cs[0].d["args"][1:]], fa.param_names[1:]))
+                if name != "remove_tile":
+                    ok = ok and unmut(p.value) == unmut(cs[0].d["ret"]) if cs else False
+            obs.append(Ob("R-LISTING", f["path"], "public wrapper forwards to the store with its own arguments", ok, "paths: %d" % len(fa.paths), rel(f["loc"])))
+    return obs
+
+
+def r_add_offset(ctx):
+    """R-ADD-OFFSET (C04/C19/C03): registering a reader-backed tile stores exactly (id ↦ OffsetLength(offset, length)) and refuses length 0"""
+    obs = []
+    adt, roles = store_adt(ctx)
+    if adt is None:
+        return no_anchor("R-ADD-OFFSET", "tile store")
+    fs = [f for f in ctx.user_fns() if "TileManager" in (f.get("self_ty") or "") and any(c["fn"] == "tile_manager::TileManagerTile::OffsetLength" for c in calls(f["body"]))]
+    if not fs:
+        return no_anchor("R-ADD-OFFSET", "registration function (builds TileManagerTile::OffsetLength)")
+    for f in fs:
+        fa = ctx.fa(f)
+        fn = f["path"]
+        P = {n: V("param:" + n) for n in fa.param_names}
+        errs = [p for p in fa.paths if p.exit == "err"]
+        for p in fa.paths:
+            if p.exit not in ("ok", "tail"):
+                continue
+            ins = [e for e in p.events if e.kind == "call" and e.d["fn"] == HM + "insert"]
+            ok = len(ins) == 1 and unmut(ins[0].d["args"][0]) == self_field(roles["tiles"]) and unmut(ins[0].d["args"][1]) == P.get("tile_id")
+            val = unmut(ins[0].d["args"][2]) if ins else None
+            ok = ok and is_call_to(val, lambda s: s == "tile_manager::TileManagerTile::OffsetLength") and list(val[2]) == [P.get("offset"), P.get("length")]
+            obs.append(Ob("R-ADD-OFFSET", fn, "stores id ↦ OffsetLength(offset, length) in the id map, nothing else", ok and len(mutations(p, roles)) == 1, "insert value %s" % tstr(val)[:80], rel(f["loc"])))
+            g = any(d.d["how"] == "if" and unmut(d.d["cond"]) == ("bin", "==", P.get("length"), C(0)) and d.d["outcome"] is False for d in p.decisions(ins[0].seq if ins else None))
+            obs.append(Ob("R-ADD-OFFSET", fn, "length 0 refuted before the insert", g, "guard found: %s" % g, rel(f["loc"])))
+        obs.append(Ob("R-ADD-OFFSET", fn, "length 0 ⇒ Err without mutation", bool(errs) and all(not mutations(p, roles) for p in errs), "error exits: %d" % len(errs), rel(f["loc"])))
+    return obs
